@@ -44,9 +44,9 @@ def pinch_analysis_service(data: Any, project_name: str = "Project", is_return_f
     """
     # Validate request data using Pydantic model
     request_data = TargetInput.model_validate(data)
-    if request_data is data:
-        # validation hands back the caller's own model: work on a copy, preparation rewrites labels and utilities
-        request_data = data.model_copy(deep=True)
+    # validation keeps model instances supplied by the caller (the whole request or single stream / utility / zone-tree
+    # records inside a dict) as they are: work on a copy, preparation rewrites labels, utilities and the zone tree
+    request_data = request_data.model_copy(deep=True)
 
     # Formulate the top level zone with all subzones and approperiate input data
     master_zone = prepare_problem(
